@@ -19,6 +19,7 @@ int main(int argc, char **argv) {
   c.encode = [](const Spec &s) { return encode(s); };
   c.decode = [](const std::string &s) { return decode(s); };
   c.eval = [](const Spec &s, vf::Ctx &ctx) { return evalDetailed(s, ctx, M_C05, gThorough); };
+  c.primers = legalizationPrimers();
   c.instanceTimeout = 60;
   c.deadline = gThorough ? 3000 : 400;
   return vf::runCheck(o, c);
